@@ -5,6 +5,7 @@
   (`Generated.Verb.guards`), so `guards_table` is re-checked by the kernel against what the code says now:
   dropping `login_required` from any handler breaks that obligation on the next run.
 -/
+import AioftpModel.Properties.C05
 import AioftpModel.Lemmas.Session
 
 namespace C03
@@ -208,5 +209,16 @@ example :
     let (_, s3, o3) := step demoCfg w2 s2 (.line "PASS pw".toList [])
     s2.logged = false ∧ o2.replies = [530] ∧ s3.logged = true ∧ o3.replies = [230] := by
   decide
+
+/-! ### no command is judged under one login and executed under another (F18, repaired in /repo 6553f05) -/
+
+/-- `RETR f` and `USER other` in one segment: with a backend whose calls suspend, the pinned dispatcher let USER swap
+    the session's user between the login guard of RETR and its handler.  As the source is now at most one handler runs
+    at any moment and handlers start in arrival order (`C05.pipelined_commands_handled_in_order`), so every command is
+    `Session.step` on the state its predecessors left - and `nothing_served_before_login`,
+    `reuser_drops`, `pass_authorises_only_with_password` above speak about pipelined input as well. -/
+theorem no_handler_runs_beside_another (evs : List Model.Dispatch.Ev) :
+    (Model.Dispatch.runNow evs).running.length ≤ 1 :=
+  (C05.pipelined_commands_handled_in_order evs).1
 
 end C03
